@@ -14,7 +14,7 @@ def miri_step(cfg, tier, seed, workdir, env):
         return {"extra": {"miri": "not run (quick tier)"}}
     reqs = [l.rstrip("\n") for l in open(os.path.join(_V, "corpus", "C11.miri.txt")) if l.strip() and not l.startswith("#")]
     e = dict(env, CARGO_TARGET_DIR=os.path.join(_V, "target", "miri"), MIRIFLAGS="-Zmiri-disable-isolation -Zmiri-tree-borrows",
-             VERIF_HANG_S="1200")      # the interpreter is 100x slower: the harness watchdog must not mistake it for a hang
+             VERIF_HANG_S="0")      # no watchdog thread: miri reports a detached thread that is alive at exit as an error (the run has its own timeout)
     t0 = time.time()
     try:
         p = subprocess.run(["cargo", "+nightly", "miri", "run", "--offline", "-p", "rt", "--", "exec"], cwd=os.path.join(_V, "harness"),
